@@ -161,6 +161,7 @@ func runProp(P *Prog, prop string, f func(*Run), tierV string, analysed string, 
 	tier, repo, verif, out := &tierV, &analysed, &verifDir, &outDir
 	_ = verif
 	R := &Run{P: P, Prop: prop, Tier: *tier, floors: map[string]int{}, rules: map[string]string{}, start: start, fnsSeen: map[string]bool{}}
+	curProg = P
 	if norm != nil {
 		P.norm = norm
 		R.note(fmt.Sprintf("normalised view: %d functions outside the reference vocabulary (%s); %d call sites expanded in %d rounds, %d helpers removed after expansion; not expanded: %v.", len(norm.NewFuncs), strings.Join(norm.NewFuncs, ", "), len(norm.Inlined), norm.Rounds, len(norm.Removed), norm.Left))
@@ -191,6 +192,7 @@ func runProp(P *Prog, prop string, f func(*Run), tierV string, analysed string, 
 			}
 			P2.norm = norm
 			R2 := &Run{P: P2, Prop: prop, Tier: *tier, floors: map[string]int{}, rules: map[string]string{}, start: start, fnsSeen: map[string]bool{}}
+			curProg = P2
 			func() {
 				defer func() {
 					if r := recover(); r != nil {
@@ -209,6 +211,7 @@ func runProp(P *Prog, prop string, f func(*Run), tierV string, analysed string, 
 					}
 				}
 			}
+			curProg = P
 			R.note(fmt.Sprintf("GOOS=%s: %d obligations evaluated, %d differing from the primary configuration.", goos, len(R2.Obls), differ))
 		}
 	}
